@@ -778,8 +778,9 @@ fn line_offsets(src: &str) -> Vec<usize> {
     std::iter::once(0).chain(src.char_indices().filter_map(|(i, c)| if c == '\n' { Some(i + 1) } else { None })).collect()
 }
 
-/// F-C11-3: a token that the formatter copies with `source_slice` (number literal, comment) whose
-/// `line_offsets[line] + column` differs from its byte range, at either end.
+/// (statistics only, F-C11-3 is fixed) a token that the formatter copies with `source_slice` (number
+/// literal, comment) whose `line_offsets[line] + column` differs from its byte range: these inputs
+/// exercise the token-boundary table of b1042e7.
 fn slice_shifted_tokens(src: &str, toks: &[Tk]) -> Vec<usize> {
     let lo = line_offsets(src);
     let mut v = vec![];
@@ -1110,12 +1111,10 @@ fn ends_in_block(ast: &Ast, i: AstIndex, depth: u32) -> bool {
 }
 
 fn static_shapes(src: &str, ast: &Ast, toks: &[Tk]) -> Vec<&'static str> {
-    // (the shapes of F-C11-1 wildcard import, F-C11-2 format representation and F-C11-4 blank line
-    // after a block header were removed when those findings were fixed: 03b99c3, 7549768, e85457a)
+    // (the shapes of F-C11-1 wildcard import, F-C11-2 format representation, F-C11-3 width-shifted
+    // source slices and F-C11-4 blank line after a block header were removed when those findings were
+    // fixed: 03b99c3, 7549768, b1042e7, e85457a)
     let mut v = vec![];
-    if !slice_shifted_tokens(src, toks).is_empty() || (src.contains("#[fmt:") && !src.is_ascii()) {
-        v.push("slice_shifted");
-    }
     // F-C11-9: an operator whose operand is / ends in an indented block (the parser reads a line that
     // starts with an operator as a continuation of the block-ending expression in front of it)
     for n in ast.nodes() {
@@ -1204,6 +1203,7 @@ fn worker_handle(line: &str) -> String {
         None => return json!({"parse": "err:lex"}).to_string(),
     };
     let shapes = static_shapes(&src, &ast, &toks);
+    let width_shifted = !slice_shifted_tokens(&src, &toks).is_empty();
     let mut behaviour = None;
     if runnable {
         let b1 = run_program(&src, path.as_deref());
@@ -1225,17 +1225,6 @@ fn worker_handle(line: &str) -> String {
         if !fails.is_empty() && src.lines().any(|l| l.chars().count() > o.ll as usize) {
             oshapes.push("input_line_wider_than_line_length");
         }
-        // clause 5 formats the first pass's output: F-C11-3 applies to that text as well (joining
-        // lines can put a non-ASCII identifier in front of a number literal)
-        if fails.iter().any(|f| f["clause"].as_str().is_some_and(|c| c.starts_with("5:"))) {
-            if let Ok(Ok(out1)) = kvh::catch(|| format(&src, o.to_fo())) {
-                if let Some(t1) = lex_all(&out1) {
-                    if !slice_shifted_tokens(&out1, &t1).is_empty() {
-                        oshapes.push("slice_shifted_in_first_pass_output");
-                    }
-                }
-            }
-        }
         results.push(json!({"opt": o.text(), "fails": fails, "shapes": oshapes}));
     }
     json!({
@@ -1245,6 +1234,8 @@ fn worker_handle(line: &str) -> String {
         "comments": base.comments.len(),
         "literals": base.literals.values().sum::<i64>(),
         "behaviour": base.behaviour.is_some(),
+        "width_shifted": width_shifted,
+        "non_ascii": !src.is_ascii(),
         "shapes": shapes,
         "results": results,
     })
@@ -1481,7 +1472,7 @@ struct Gen {
     in_loop: u32,
     in_fn: u32,
     no_comment: bool,
-    unicode: bool, // non-ASCII text may appear anywhere (else only on lines without numbers/comments)
+    unicode: bool, // non-ASCII identifiers / strings / comments anywhere (F-C11-3 is fixed: no shape to avoid)
 }
 
 const NONASCII_IDS: [&str; 4] = ["é", "名前", "über", "ñandú"];
@@ -1493,7 +1484,7 @@ impl Gen {
         let mut g = Gen { rng, out: String::new(), nums: vec![], strs: vec![], lists: vec![], fns: vec![], counter: 0, step: 2, wide: false, in_loop: 0, in_fn: 0, no_comment: false, unicode: false };
         g.step = *g.rng.pick(&[2usize, 2, 4, 3, 1]);
         g.wide = g.rng.chance(1, 8);
-        g.unicode = g.rng.chance(1, 5);
+        g.unicode = g.rng.chance(1, 2);
         g
     }
     fn fresh(&mut self, p: &str) -> String {
@@ -1755,8 +1746,8 @@ impl Gen {
             text
         };
         let trailing = if self.rng.chance(1, 25) { "  " } else { "" };
-        let comment = if self.rng.chance(1, 8) && text.is_ascii() && !text.contains('\n') && !self.no_comment {
-            format!("{}# {}", self.sp1(), *self.rng.pick(&["note", "c", "trailing comment", "x = 1", "#"]))
+        let comment = if self.rng.chance(1, 8) && !text.contains('\n') && !self.no_comment {
+            format!("{}# {}", self.sp1(), *self.rng.pick(&["note", "c", "trailing comment", "x = 1", "#", "ünï 字"]))
         } else {
             String::new()
         };
@@ -2199,8 +2190,6 @@ fn mutants(src: &str, rng: &mut Rng, n: usize) -> Vec<String> {
 
 /// (finding id, shape on the input program, clause prefixes the finding can explain)
 const FINDINGS: &[(&str, &str, &[&str])] = &[
-    ("F-C11-3", "slice_shifted", &["1:panic", "2:", "3:", "4:", "5:", "6:"]),
-    ("F-C11-3", "slice_shifted_in_first_pass_output", &["5:"]),
     ("F-C11-5", "nested_chain_break", &["2:", "3:", "5:"]),
     ("F-C11-6", "input_line_wider_than_line_length", &["2:", "3:", "5:"]),
     ("F-C11-7", "fmt_skip", &["2:", "3:", "5:"]),
@@ -2383,6 +2372,12 @@ impl Ctx {
         }
         if v["comments"].as_u64().unwrap_or(0) > 0 {
             self.rep.bump("programs_with_comments");
+        }
+        if v["non_ascii"] == true {
+            self.rep.bump("programs_with_non_ascii_text");
+        }
+        if v["width_shifted"] == true {
+            self.rep.bump("programs_with_literal_or_comment_after_width_ne_bytes_text");
         }
         for s in &shapes {
             self.rep.bump(&format!("shape={}", s));
@@ -2639,13 +2634,22 @@ fn k_srcslice(cx: &mut Ctx, drv: &mut Driver, rng: &mut Rng, n_random: usize) ->
             continue;
         }
         let chs: Vec<String> = src.chars().map(|c| format!("{},{},{}", c as u32, c.len_utf8(), c.width().unwrap_or(0))).collect();
+        // position_offsets of FormatContext::new: token boundaries, sorted, deduplicated
+        let mut tbl: Vec<(u32, u32, usize)> = vec![];
+        for t in &toks {
+            tbl.push((t.line, t.col, t.sb));
+            tbl.push((t.eline, t.ecol, t.eb));
+        }
+        tbl.sort();
+        tbl.dedup();
+        let tbl_s: Vec<String> = tbl.iter().map(|(l, c, b)| format!("@{}:{}:{}", l, c, b)).collect();
         // expected output: the statement text with every Number token replaced by the model's slice
         let mut expected = String::new();
         let mut panics = false;
         let mut pos = 0;
         let mut model_lines = vec![];
         for t in toks.iter().filter(|t| t.token == Token::Number) {
-            let m = drv.ask(&format!("slice {} {} {} {} {}", t.line, t.col, t.eline, t.ecol, chs.join(" ")));
+            let m = drv.ask(&format!("slice {} {} {} {} {} {}", t.line, t.col, t.eline, t.ecol, tbl_s.join(" "), chs.join(" ")));
             model_lines.push(m.clone());
             expected.push_str(&src[pos..t.sb]);
             pos = t.eb;
